@@ -6,6 +6,7 @@ package zzverif
 
 import (
 	"fmt"
+	ppb "github.com/google/fhir/go/proto/google/fhir/proto/r4/core/resources/patient_go_proto"
 	"sort"
 	"strings"
 	"testing"
@@ -421,6 +422,82 @@ func c12TargetClass(ts typeSpec, decl string, anc map[string]bool) string {
 	return "an unrelated datatype"
 }
 
+// --- every datatype allowed as an extension value × the datatype and primitive names ------
+
+type c12ExtCase struct {
+	Member int    `json:"member"` // index into the oneof of Extension.ValueX
+	Spec   string `json:"spec"`
+}
+
+func c12ExtMembers() protoreflect.FieldDescriptors {
+	return (&dtpb.Extension_ValueX{}).ProtoReflect().Descriptor().Oneofs().Get(0).Fields()
+}
+
+func c12EnumExt(yield func(c12ExtCase)) {
+	ms := c12ExtMembers()
+	for i := 0; i < ms.Len(); i++ {
+		for _, sp := range c12Specs {
+			ts := resolveSpec(sp)
+			// datatype and primitive names (the resource names are covered by the resources stage)
+			if ts.Valid && ts.NS == "FHIR" {
+				if _, isRes := resTypeByName[ts.Name]; isRes {
+					continue
+				}
+			}
+			yield(c12ExtCase{Member: i, Spec: sp})
+		}
+	}
+}
+
+func c12RunExt(ctx *Ctx, c c12ExtCase) {
+	ms := c12ExtMembers()
+	f := ms.Get(c.Member % ms.Len())
+	vm := dynamicNew(f.Message())
+	if vm == nil {
+		ctx.Fail("harness: cannot create "+string(f.Message().FullName()), "")
+		return
+	}
+	g := &resGen{s: fixedSrc{c.Member + 1}, o: smallGen, budget: 8}
+	g.fill(vm, 1)
+	vx := &dtpb.Extension_ValueX{}
+	vx.ProtoReflect().Set(f, protoreflect.ValueOfMessage(vm))
+	pat := &ppb.Patient{Id: &dtpb.Id{Value: "x"}, Extension: []*dtpb.Extension{{Url: &dtpb.Uri{Value: "http://example.org/v"}, Value: vx}}}
+	decl := declaredType(&Node{Msg: vm.Interface(), TypeName: string(f.Message().Name()), Prim: isPrimitiveMD(f.Message())})
+	ts := resolveSpec(c.Spec)
+	path := "Patient.extension[0].value"
+	src := path + " is " + c.Spec
+	out := evalWith(src, []fhir.Resource{pat}, nil)
+	anc := fhirAncestors(decl)
+	ctx.Eval(fmt.Sprintf("%d|%s", c.Member, c.Spec), ts.Valid && ts.Name != decl, "decl:extension-value", "member:"+string(f.Name()))
+	if out.Panic != "" {
+		ctx.Fail("types: `is` panics", src+": "+out.Panic)
+		return
+	}
+	if !ts.Valid || decl == "?" || decl == "xhtml" {
+		return // invalid specifiers are judged in the other stages
+	}
+	if out.CompileErr != nil {
+		ctx.Fail(fmt.Sprintf("types: valid type specifier rejected by Compile (%s)", c12SpecClass(c.Spec)), src+": "+out.CompileErr.Error())
+		return
+	}
+	want := ts.NS == "FHIR" && anc[ts.Name]
+	if ts.NS == "FHIR" && ts.Name == "BackboneElement" && (anc["Dosage"] || anc["Timing"] || anc["ElementDefinition"] || backboneDatatypes[decl]) {
+		return
+	}
+	if got := renderColl(out.Coll); out.Err != nil || got != fmt.Sprintf("[Boolean:%v]", want) {
+		ctx.Fail(fmt.Sprintf("types: extension value `%s is %s` want %v", c12DeclClass(decl), c12TargetClass(ts, decl, anc), want), fmt.Sprintf("%s → %s (declared type %s, value type %s)", src, out, decl, f.Message().Name()))
+		return
+	}
+	asOut := evalWith(path+" as "+c.Spec, []fhir.Resource{pat}, nil)
+	if want {
+		if asOut.failed() || len(asOut.Coll) != 1 || any(asOut.Coll[0]) != any(vm.Interface()) {
+			ctx.Fail("types: `x as T` does not return x itself when `x is T`", fmt.Sprintf("%s as %s → %s", path, c.Spec, asOut))
+		}
+	} else if asOut.failed() || len(asOut.Coll) != 0 {
+		ctx.Fail("types: `x as T` is not empty when `x is T` is false", fmt.Sprintf("%s as %s → %s", path, c.Spec, asOut))
+	}
+}
+
 // --- System values --------------------------------------------------------------
 
 type c12SysCase struct {
@@ -480,10 +557,11 @@ func c12RunSys(ctx *Ctx, c c12SysCase) {
 
 func TestC12(t *testing.T) {
 	r := newRec("C12",
-		fmt.Sprintf("a resource case is one generated resource of any R4 type: ≤ 25 sampled nodes of its JSON tree (addressed by fully indexed paths) × 12 (quick) / 40 (thorough) type specifiers drawn from %d texts = {146 resource names, %d datatype names, 19 primitive names in both cases, Element, BackboneElement, Resource, DomainResource, Any, Quantity} × {unqualified, FHIR., System.} ∪ invalid specifiers; each evaluates `x is T` and `x as T`.  A second, exhaustive stage asks every specifier about 22 literals and function results of every System type.  non-trivial = T is valid and is a strict ancestor of, or unrelated to, the declared type; distinct = FNV-64 of (resource, source)", len(c12Specs), len(datatypeNames)),
+		fmt.Sprintf("a resource case is one generated resource of any R4 type: ≤ 25 sampled nodes of its JSON tree (addressed by fully indexed paths) × 12 (quick) / 40 (thorough) type specifiers drawn from %d texts = {146 resource names, %d datatype names, 19 primitive names in both cases, Element, BackboneElement, Resource, DomainResource, Any, Quantity} × {unqualified, FHIR., System.} ∪ invalid specifiers; each evaluates `x is T` and `x as T`.  A second, exhaustive stage puts a value of each of the 49 datatypes allowed in Extension.value[x] (uuid, oid, canonical, markdown, Age, Count, … which hardly occur elsewhere) into an extension and asks every datatype and primitive name about it; a third asks every specifier about 22 literals and function results of every System type.  non-trivial = T is valid and is a strict ancestor of, or unrelated to, the declared type; distinct = FNV-64 of (resource, source)", len(c12Specs), len(datatypeNames)),
 		"declared types come from the proto annotations (fhir_structure_definition_url, fhir_valueset_url, schema position), the R4 hierarchy from a hand-written table", "BackboneElement ancestry of the eight datatypes R4 derives from BackboneElement, and of components nested in datatypes, is not asserted")
 	runProperty(t, r,
 		Stage[c12SysCase]{Name: "system-values", Enum: c12EnumSys, Run: c12RunSys},
+		Stage[c12ExtCase]{Name: "extension-values", Enum: c12EnumExt, Run: c12RunExt},
 		Stage[c12Case]{Name: "resources", Gen: c12Gen, Run: c12Run, N: pick(150, 700)},
 	)
 }
